@@ -159,7 +159,7 @@ const ALPHABETS: &[Alphabet] = &[
     Alphabet { name: "letters", symbols: &["G", "O", "T", "S", "U", "B", " ", "R", "E", "M", "I", "F", "N", "1", "$"], k_quick: 4, k_thorough: 5 },
     Alphabet {
         name: "words",
-        symbols: &["GO", " ", "TO", "SUB", "REM", "IF", "THEN", "ELSE", "FN", "A", "1", "\"", "é", ":", "=", "PRINT", "DATA", "'", "X$", "NOT", "MOD", "-", "1E", "&H", "FOR", "OR"],
+        symbols: &["GO", " ", "TO", "SUB", "REM", "IF", "THEN", "ELSE", "FN", "A", "1", "\"", "é", ":", "=", "PRINT", "DATA", "'", "X$", "NOT", "MOD", "-", "1E", "&H", "FOR", "OR", "<", ">"],
         k_quick: 3,
         k_thorough: 4,
     },
@@ -307,6 +307,9 @@ const CORPUS: &[&str] = &[
     "10 PRINT 12345678;1234567;1.2345678;1E5;1D5;7%;7!;7#",
     "65529 END",
     "0 REM",
+    "ELSE =< =",
+    "10 PRINT 1 ELSE =< =",
+    "10 IF A THEN PRINT 1 ELSE PRINT 2 ELSE < = >",
 ];
 
 fn gen_corpus(part: usize, parts: usize, _th: bool, emit: &mut dyn FnMut(&str)) {
